@@ -94,6 +94,9 @@ pub fn drive_c14(a: &Args, w: &Words) {
                 ev_ss(&mut sh, &xn, &y, rng.below(32) as u8);
             }
         }
+        // the arithmetic helpers on a slice of their domain; with `unchecked` through the *_unchecked
+        // entry points (their contracts hold on this domain), recorded under the same event names
+        tables_slice(&mut sh);
         sh.finish();
     }
     // ---------------- object slice
@@ -146,5 +149,83 @@ pub fn drive_c14(a: &Args, w: &Words) {
         let mut b = Args { seed: a.seed, tier: "c14".into(), out: a.out.clone(), shards: a.shards, rest: vec![] };
         b.tier = "quick".into();
         crate::hashes::drive_hashes_scaled(&b, w, "c14hash", if thorough { 60_000 } else { 15_000 });
+    }
+}
+
+fn tables_slice(sh: &mut Shards) {
+    use ssdeep::{block_size, FuzzyHashCompareTarget};
+    sh.next_unit();
+    for l1 in (7..=64u8).step_by(3) {
+        for l2 in [7u8, 8, 31, 32, 33, 63, 64] {
+            let rs: Vec<u64> = (0..=(l1 as u32 + l2 as u32 - 14))
+                .map(|d| {
+                    #[cfg(feature = "unchecked")]
+                    {
+                        (unsafe { FuzzyHashCompareTarget::raw_score_by_edit_distance_unchecked(l1, l2, d) }) as u64
+                    }
+                    #[cfg(not(feature = "unchecked"))]
+                    {
+                        FuzzyHashCompareTarget::raw_score_by_edit_distance(l1, l2, d) as u64
+                    }
+                })
+                .collect();
+            sh.emit(&format!("{{\"ev\":\"rawscore\",\"panics\":0,\"l1\":{},\"l2\":{},\"rs\":{}}}", l1, l2, jarr_u64(&rs)));
+        }
+    }
+    for n in 0..=31u8 {
+        for l1 in [0u8, 1, 7, 12, 13, 32, 64] {
+            let rs: Vec<u64> = (0..=64u8)
+                .map(|l2| {
+                    #[cfg(feature = "unchecked")]
+                    {
+                        if n < FuzzyHashCompareTarget::LOG_BLOCK_SIZE_CAPPING_BORDER {
+                            return (unsafe { FuzzyHashCompareTarget::score_cap_on_block_hash_comparison_unchecked(n, l1, l2) }) as u64;
+                        }
+                    }
+                    FuzzyHashCompareTarget::score_cap_on_block_hash_comparison(n, l1, l2) as u64
+                })
+                .collect();
+            sh.emit(&format!("{{\"ev\":\"cap\",\"panics\":0,\"n\":{},\"l1\":{},\"rs\":{},\"border\":{}}}", n, l1, jarr_u64(&rs), FuzzyHashCompareTarget::LOG_BLOCK_SIZE_CAPPING_BORDER));
+        }
+    }
+    for x in 0..31u8 {
+        for y in 0..31u8 {
+            let r = block_size::compare_sizes(x, y);
+            let rs = match r {
+                ssdeep::BlockSizeRelation::NearLt => "NearLt",
+                ssdeep::BlockSizeRelation::NearEq => "NearEq",
+                ssdeep::BlockSizeRelation::NearGt => "NearGt",
+                ssdeep::BlockSizeRelation::Far => "Far",
+            };
+            let ord = match block_size::cmp(x, y) {
+                std::cmp::Ordering::Less => -1,
+                std::cmp::Ordering::Equal => 0,
+                std::cmp::Ordering::Greater => 1,
+            };
+            sh.emit(&format!(
+                "{{\"ev\":\"bsrel\",\"panics\":0,\"a\":{},\"b\":{},\"rel\":\"{}\",\"near\":{},\"eq\":{},\"lt\":{},\"gt\":{},\"ord\":{},\"relnear\":{}}}",
+                x, y, rs, block_size::is_near(x, y), block_size::is_near_eq(x, y), block_size::is_near_lt(x, y), block_size::is_near_gt(x, y), ord, r.is_near()
+            ));
+        }
+    }
+    // logarithms (with `unchecked`: from_log_unchecked / log_from_valid_unchecked on the valid range)
+    for n in 0..31u8 {
+        #[cfg(feature = "unchecked")]
+        let (bs, back) = unsafe {
+            let bs = block_size::from_log_unchecked(n);
+            (bs, block_size::log_from_valid_unchecked(bs))
+        };
+        #[cfg(not(feature = "unchecked"))]
+        let (bs, back) = {
+            let bs = block_size::from_log(n).unwrap();
+            (bs, block_size::log_from_valid(bs))
+        };
+        let h = ssdeep::RawFuzzyHash::new_from_internals_near_raw(n, &[], &[]);
+        let t = h.to_string();
+        let p = ssdeep::LongFuzzyHash::from_bytes(t.as_bytes()).map(|x| x.log_block_size() as i32).unwrap_or(-1);
+        sh.emit(&format!(
+            "{{\"ev\":\"bslog\",\"panics\":0,\"n\":{},\"valid\":{},\"from\":{},\"back\":{},\"isvalid\":{},\"txt\":{},\"parsed\":{},\"acc\":{}}}",
+            n, block_size::is_log_valid(n), jw32(bs), back, block_size::is_valid(bs), jarr_u8(t.as_bytes()), p, jw32(h.block_size())
+        ));
     }
 }
